@@ -305,9 +305,9 @@ BOUNDED = [
      'the 15 helper functions of array_utils/fft_helper/common against the executable reading of their contracts: all data/output lengths <= 12 (zip: <= 8), chunk sizes <= 5, scratch <= 3 (exhaustive in that box); up to 12 chunks'),
     ('chunks', ['C07', 'C12'], 'chunks:96', 'chunks:700',
      'C07 on real transforms (21 butterflies, Dft, every FftPlannerScalar<f64> length below the limit): a k-chunk call (k <= 6) equals k single-chunk calls bit for bit on the three explicit-scratch entry points'),
-    ('simd_sse', ['C01', 'C03', 'C04', 'C07', 'C08', 'C09', 'C13', 'C15'], 'simd_sse:260', 'simd_sse:1100',
-     'SIMD kernels are outside both verifiers: FftPlannerSse<f32|f64> on this CPU, every length below the limit: plans without panic, len/direction/scratch<=12n+64; through the three explicit-scratch entry points with canary-guarded buffers: 1..5 chunks and ill-shaped variants, canaries and immutable input intact, ill-shaped panics, every chunk equals the portable (scalar planner) transform of that chunk up to rounding (2e-4 f32 / 1e-11 f64 relative L2); with exactly the advertised scratch the output is bit-identical whether scratch and output start as zero, NaN or +inf (C08)', 'avx,sse'),
-    ('simd_avx', ['C01', 'C03', 'C04', 'C07', 'C08', 'C09', 'C13', 'C15'], 'simd_avx:336', 'simd_avx:1100',
+    ('simd_sse', ['C01', 'C03', 'C04', 'C06', 'C07', 'C08', 'C09', 'C13', 'C15'], 'simd_sse:260', 'simd_sse:1100',
+     'SIMD kernels are outside both verifiers: FftPlannerSse<f32|f64> on this CPU, every length below the limit: plans without panic, len/direction/scratch<=12n+64; through the three explicit-scratch entry points with canary-guarded buffers: 1..5 chunks and ill-shaped variants, canaries and immutable input intact, ill-shaped panics, every chunk equals the portable (scalar planner) transform of that chunk up to rounding (2e-4 f32 / 1e-11 f64 relative L2); with exactly the advertised scratch the output is bit-identical whether scratch and output start as zero, NaN or +inf (C08); at length 131072 (thorough: five lengths up to 327680) the distance to the portable transform stays below 16 eps log2 n (error growth with n)', 'avx,sse'),
+    ('simd_avx', ['C01', 'C03', 'C04', 'C06', 'C07', 'C08', 'C09', 'C13', 'C15'], 'simd_avx:336', 'simd_avx:1100',
      'same for FftPlannerAvx<f32|f64> (this CPU: avx2+fma)', 'avx,sse'),
     ('simd_mem', ['C03', 'C15'], 'simd_mem:256', 'simd_mem:1100',
      'memory safety of the SIMD kernels at run time, READS included (the canary pads of simd_sse / simd_avx only see writes): the replay binary runs under valgrind memcheck; FftPlannerAvx and FftPlannerSse, f32 and f64, every length below the limit, 1 and 2 chunks, the three explicit-scratch entry points, every buffer a heap block of exactly the required size - an access outside a caller buffer is an invalid read / write', 'avx,sse', 'valgrind'),
